@@ -22,7 +22,7 @@ import z3
 
 from pyvc import ops
 from pyvc.ops import Unsupported
-from pyvc.state import HeapObj
+from pyvc.state import Frame, HeapObj
 from pyvc.values import (NONE, V, VBool, VBytes, VExt, VFunc, VInt, VNoneT, VRef, VSeq, VStr, VTuple, VType, VUnk,
                          ext_sort, fresh_name)
 from pyvc.verify import Maker
@@ -337,9 +337,13 @@ class _C14Base(BytesMixin, ZListMixin, UnitsExecutor):
         loops = [n for n in ast.walk(fnode) if isinstance(n, (ast.For, ast.While))]
         loops.sort(key=lambda n: (n.lineno, n.col_offset))
         try:
-            return c.loops.get(loops.index(node))
+            k = loops.index(node)
         except ValueError:
             return None
+        dl = getattr(self, "_deleg", None)
+        if dl and dl[-1][0] is fnode:       # generator helper executed in place by `yield from` (ViewMixin._delegate)
+            k += dl[-1][1]
+        return c.loops.get(k)
 
     # ---- calls ----
     def call(self, st, f, args, kwargs, node):
@@ -603,6 +607,8 @@ class ViewMixin:
             return [(st, VExt(es, ofield(obj.sort, f, es)(obj.t)))]
         return super().field_values(st, obj, f, kind)
 
+    _deleg = ()
+
     def view_mode(self):
         return self.VIEW.get(self.contract.target) if self.contract is not None and self.inline_depth == 0 else None
 
@@ -759,9 +765,61 @@ class ViewMixin:
             return r
         return super().s_For(s, st)
 
+    # ---- `yield from helper(args)` with a same-module GENERATOR helper: the helper's body is executed in place as part of the iterator
+    # under verification (its yields are yields of the iterator; its loops take the contract's loop specifications: position = the number
+    # of loops of the delegating function that start before the delegation + the position inside the helper) ----
+    def _delegate_fn(self, n):
+        v = n.value
+        if not (isinstance(v, ast.Call) and isinstance(v.func, ast.Name)) or any(isinstance(a, ast.Starred) for a in v.args) \
+                or any(k.arg is None for k in v.keywords):
+            return None
+        fnode = self.module.functions.get(v.func.id)
+        if not isinstance(fnode, ast.FunctionDef) or any(fnode is x for x in self.cur_fn_stack) or fnode.decorator_list:
+            return None
+        own = [x for x in ast.walk(fnode) if isinstance(x, (ast.Yield, ast.YieldFrom))]
+        if not own or any(isinstance(x, ast.Return) and x.value is not None for x in ast.walk(fnode)):
+            return None
+        if any(isinstance(x, (ast.FunctionDef, ast.AsyncFunctionDef, ast.Lambda, ast.Try, ast.With)) for b in fnode.body for x in ast.walk(b)):
+            return None
+        return fnode
+
+    def _delegate(self, n, st, fnode):
+        call = n.value
+        top = self.cur_fn_stack[-1] if self.cur_fn_stack else None
+        before = 0
+        if top is not None:
+            before = sum(1 for x in ast.walk(top) if isinstance(x, (ast.For, ast.While)) and (x.lineno, x.col_offset) < (n.lineno, n.col_offset))
+        if not isinstance(self._deleg, list):
+            self._deleg = []
+        base = (self._deleg[-1][1] if self._deleg else 0) + before
+        out = []
+        for (s2, args) in self.ev_list(call.args, st):
+            for (s3, kwvals) in self.ev_list([k.value for k in call.keywords], s2):
+                env = self.bind_params(fnode, args, {k.arg: v for k, v in zip(call.keywords, kwvals)}, call)
+                s3.frames.append(Frame(env, None, fnode))
+                self._deleg.append((fnode, base))
+                self.cur_fn_stack.append(fnode)
+                try:
+                    res = self.exec_block(fnode.body, s3)
+                finally:
+                    self.cur_fn_stack.pop()
+                    self._deleg.pop()
+                for o in res:
+                    o.st.frames.pop()
+                    if o.kind in ("fall", "return"):
+                        out.append((o.st, NONE))
+                    elif o.kind == "raise":
+                        self.raise_in(o.st, o.val)
+                    else:
+                        raise Unsupported(f"{self.loc(n)} break/continue escaping a delegated generator")
+        return out
+
     def e_YieldFrom(self, n, st):
         mode = self.view_mode()
         if mode in ("images", "tables"):
+            fnode = self._delegate_fn(n)
+            if fnode is not None:
+                return self._delegate(n, st, fnode)
             out = []
             for (s, v) in self.ev(n.value, st):
                 if self.is_zlist(s, v) and isinstance(s.obj(v.ref).cls, tuple) and s.obj(v.ref).cls[0] == "obj":
